@@ -1347,13 +1347,15 @@ _NONFINITE = {"nan": float("nan"), "inf": float("inf"), "-inf": float("-inf")}
 
 
 class NonFiniteMetrics:
-    """Metric table with NaN / +-inf entries: isolated reports (rate) and whole trials (trial_prob or explicit plan
-    {trial id: 'nan' | 'inf' | '-inf'})."""
+    """Metric table with NaN / +-inf entries: isolated reports (rate) and whole trials (trial_prob), or an explicit plan
+    {'<trial id>': v, '<trial id>@<level>': v} with v in 'nan' | 'inf' | '-inf'."""
 
     def __init__(self, curves, seed, rate, trial_prob, plan=None):
         self.curves, self.seed, self.rate, self.trial_prob = curves, seed, rate, trial_prob
-        self.plan = {int(k): v for k, v in (plan or {}).items()}
-        self.active = rate > 0 or trial_prob > 0 or bool(self.plan)
+        plan = plan or {}
+        self.plan = {int(k): v for k, v in plan.items() if "@" not in str(k)}
+        self.plan_at = {(int(str(k).split("@")[0]), int(str(k).split("@")[1])): v for k, v in plan.items() if "@" in str(k)}
+        self.active = rate > 0 or trial_prob > 0 or bool(plan)
 
     def whole(self, tid):
         if tid in self.plan:
@@ -1366,6 +1368,8 @@ class NonFiniteMetrics:
 
     def __call__(self, tid, level, config=None):
         if self.active:
+            if (tid, level) in self.plan_at:
+                return _NONFINITE[self.plan_at[(tid, level)]]
             w = self.whole(tid)
             if w is not None:
                 return w
@@ -1507,8 +1511,10 @@ def run_scheduler_case(spec, p, o):
     if vt.raised:
         api, exc_name = vt.raised[0], vt.raised[1]
         if api == "suggest" and exc_name != "resume_of_non_paused":
-            orc.viol("no_raise", _raise_key(kind, api, exc_name, str(vt.raised[2])),
-                     {"raised": vt.raised, "n_suggestions": orc.n_new})
+            key = _raise_key(kind, api, exc_name, str(vt.raised[2]))
+            if o.counters.get("nonfinite_reports"):
+                key += ":after_nonfinite_metric_report"
+            orc.viol("no_raise", key, {"raised": vt.raised, "n_suggestions": orc.n_new})
         elif api == "suggest":
             o.count("other:resume_of_non_paused_trial")
         else:
